@@ -65,6 +65,11 @@ CHECKS = {
             {"name": "c16", "run": "^TestC16_", "variant": "race", "shards": {"quick": 12, "thorough": 24},
              "timeout": {"quick": 900, "thorough": 5400},
              "checks": ["c16-programs"]},
+            # the scenario rigs of other properties under the race detector: their own oracles are ignored here, race reports count
+            {"name": "c16rig", "run": "^(TestC01_|TestC03_Acks|TestC05_Isolation|TestC06_Lifecycle|TestC07_|TestC08_RecoveryE2E|TestC12_|TestC14_|TestC15_Reconnect|TestC10_Process|TestC13_Limits|TestC19_E2E)",
+             "variant": "race", "shards": {"quick": 4, "thorough": 16}, "timeout": {"quick": 900, "thorough": 5400},
+             "env": {"VERIF_RIGRACE": "1", "VERIF_TIER": "quick"}, "only_property_failures": True, "tiers": ["thorough"],
+             "checks": ["c16-rig-race"]},
         ],
     },
     "C17": {
